@@ -127,8 +127,11 @@ func linkCorr(c *Ctx) {
 	var cases []string
 	srcs := append([]string{}, linkExtra...)
 	srcs = append(srcs, corrSources(c, c.N(5), 2000)...)
+	// Coq elaborates a cases file at roughly 20-25 s per MB: the total size is budgeted
+	budget, used := c.N(900000), 0
 	add := func(src string) {
-		if t, ok := linkCaseTerm(src); ok {
+		if t, ok := linkCaseTerm(src); ok && used+len(t) <= budget {
+			used += len(t)
 			cases = append(cases, t)
 			c.Res.CaseInputs = appendCase(c.Res.CaseInputs, "mismatch_link", src)
 			c.Res.CaseInputs = appendCase(c.Res.CaseInputs, "mismatch_seg", src)
